@@ -304,6 +304,10 @@ impl Manifest {
 
     /// Rollover the log.
     pub fn rollover(&mut self) -> Result<(), SError> {
+        // NOTE:  Before the first edit there is no MANIFEST, so there is nothing to roll over.
+        if !MANIFEST(&self.root).is_file() {
+            return Ok(());
+        }
         let edit = Self::to_edit(&self.strs, &self.info);
         // NOTE:  If the newest backup is the very file MANIFEST names, an earlier rollover died
         // after linking the backup and before renaming the roll-up into place.  Finish that
